@@ -22,6 +22,7 @@ type FnVal struct {
 // Act is one activation (the verified function or an inlined callee).
 type Act struct {
 	siteN int // site assertions emitted so far (obligation numbering)
+	didClose bool // the function (or an inlined callee) executes a close(): only then is G:chanclosed frame-checked
 	eng      *Engine
 	vc       *VC
 	fn       *ssa.Function
